@@ -163,7 +163,15 @@ def execute(cfg, threads_prog, strat_spec, sched_seed, pre_steps, ctx_spec=None,
                         rec["rejected"] = True
                     sched.in_op[t.tid] = True
                     sched.ev[t.tid] = []
-                    res = M.lib_apply(h.node, op["name"], args)
+                    if op.get("wrap") == "backend":
+                        # the thread enters (and leaves) its own nested backend-wide context around the operation
+                        try:
+                            with w.objs[h.oid].cls.buffer_backend():
+                                res = M._lib_apply(h.node, op["name"], args, False)
+                        except Exception as e:  # noqa
+                            res = M.Raised(e)
+                    else:
+                        res = M.lib_apply(h.node, op["name"], args)
                     sched.in_op[t.tid] = False
                     rec["ret"] = sched.step
                     if isinstance(res, M.Raised):
